@@ -27,6 +27,8 @@ def make_query(rng, st):
     apis = st.get("apis") or ["find_matches"]
     sc = gen.gen_query(rng, st.get("profile", "all"), st.get("pred_profile", "mixed"), api=rng.choice(apis),
                        with_src=st.get("src"), maxlen=st.get("maxlen", 5))
+    if st.get("untraced") and rng.random() < st["untraced"]:
+        sc["traced"] = False
     if st.get("nexts") == "drain" and sc["api"] in ("find", "find_matches"):
         sc["nexts"] = "drain"
         sc["extra"] = rng.choice([0, 1])
@@ -115,7 +117,7 @@ def run_pairs(ctx, pairs, observables, label=None):
             v = dict(level=level, what=f"python vs {'specification' if level == 'spec' else 'machine model'} on '{ob}'",
                      detail=detail, scenario={k: v for k, v in sc.items() if k != "id"}, family="q",
                      observables=observables, label=label)
-            if level == "spec" and sum(1 for x in ctx.violations if x["level"] == "spec") < 3:
+            if level == "spec" and sum(1 for x in ctx.violations if x["level"] == "spec") < 2:
                 v = shrink_query(v, observables)
             v["python"] = None
             ctx.violations.append(v)
@@ -197,10 +199,14 @@ def still_fails(cands, observables):
     return None, None
 
 
-def shrink_query(v, observables, rounds=25):
+def shrink_query(v, observables, rounds=25, budget_s=12.0):
+    import time
     sc = v["scenario"]
+    t0 = time.time()
     try:
         for _ in range(rounds):
+            if time.time() - t0 > budget_s:
+                break
             c, d = still_fails(_candidates(sc), observables)
             if c is None:
                 break
@@ -238,8 +244,9 @@ def run_corpus(ctx, cfg):
 
 # ------------------------------------------------------------------ registry
 
-def Q(profile="all", pred="mixed", apis=None, src=None, maxlen=5, nexts=None, share=1.0):
-    return dict(kind="q", profile=profile, pred_profile=pred, apis=apis, src=src, maxlen=maxlen, nexts=nexts, share=share)
+def Q(profile="all", pred="mixed", apis=None, src=None, maxlen=5, nexts=None, share=1.0, untraced=0.0):
+    return dict(kind="q", profile=profile, pred_profile=pred, apis=apis, src=src, maxlen=maxlen, nexts=nexts, share=share,
+                untraced=untraced)
 
 
 ALL_APIS = ["find_matches", "find", "get_match", "get"]
@@ -319,7 +326,7 @@ register("C04", streams=[Q("filter", pred="has", apis=["find_matches"], src=Fals
 register("C05", streams=[Q("all", apis=ALL_APIS, src=None)],
          observables=["results_exc"],
          rule="all four read functions on the same (path, source) space, source = document or k-th match of another path; default in {none, constant incl. falsy and {}, callable}; must_match in {True, False}")
-register("C07", streams=[Q("all", apis=["find_matches", "find"], src=None, nexts="partial")],
+register("C07", streams=[Q("all", apis=["find_matches", "find"], src=None, nexts="partial", untraced=0.5)],
          observables=["calls", "results_exc", "segments"], oracles=[oracles.interleave_oracle, oracles.thread_oracle],
          rule="iterators advanced k times (k below, at, beyond the number of results; extra next() calls after exhaustion); per-call segments of results and user-predicate calls compared with the machine model; interleavings of 2-5 iterators sharing path objects; real threads as support")
 register("C11", streams=[Q("nopar", apis=["find_matches"], src=None)],
@@ -328,7 +335,7 @@ register("C11", streams=[Q("nopar", apis=["find_matches"], src=None)],
 register("C12", streams=[Q("all", apis=ALL_APIS, src=True)],
          observables=["full_results"], oracles=[oracles.concat_oracle],
          rule="pairs (p, q): every API function run on q from the k-th match of p, compared with the specification evaluated from the same match; p+q concatenation checked on the python side")
-register("C13", streams=[Q("parent", apis=["find_matches"], src=None)],
+register("C13", streams=[Q("parent", apis=["find_matches"], src=None, share=2), Q("parent", apis=ALL_APIS, src=True, share=1)],
          observables=["full_results"],
          rule="paths with parent steps in any position, interleaved with descents, filters and recursion, from a document or a Match; locations incl. the '<-name' trail compared")
 register("C17", streams=[Q("all", apis=["find_matches", "get_match"], src=None)],
